@@ -1026,3 +1026,16 @@ def flat_ellipsoid_prim_pair(rng):
     if rng.random() < 0.5:
         return s2, s1, dict(meta, kinds=[k2, "ellipsoid"])
     return s1, s2, meta
+
+
+def coq_eval_retry(pid, header, exprs, tag, per_file, rebuild, timeout=1500):
+    """cm.coq_eval_lines; if another build replaced a dependency between our build and this evaluation
+    ("inconsistent assumptions"), rebuild the given targets once and retry"""
+    from . import common as cm
+    try:
+        return cm.coq_eval_lines(pid, header, exprs, tag=tag, per_file=per_file, timeout=timeout)
+    except RuntimeError as e:
+        if "inconsistent assumptions" not in str(e):
+            raise
+        cm.coq_build(rebuild)
+        return cm.coq_eval_lines(pid, header, exprs, tag=tag, per_file=per_file, timeout=timeout)
